@@ -12,5 +12,6 @@ func main() {
 	cli.Main(map[string]cli.RunFn{
 		"extract": func(out string, _ int64, _ string) error { return extract.Run(cli.Repo, out) },
 		"store":   engstore.RunStore,
+		"stack":   engstore.RunStack,
 	})
 }
